@@ -70,7 +70,13 @@ func (f *fileEvent) OnEvent(progress *PackageProgress) {
 	case ProgressStageFailQuit:
 		str += fmt.Sprintf(" 文件传输异常 [%v]", extension.Err)
 	case ProgressStageSuccessQuit:
-		phone := progress.ExtensionFields.RecentTerminalMessage.Header.TerminalPhoneNo
+		jtMsg := progress.ExtensionFields.RecentTerminalMessage
+		if jtMsg == nil || jtMsg.Header == nil {
+			// 连接结束前没有收到过任何消息 没有可保存的文件
+			str += " 连接结束 没有收到终端消息"
+			break
+		}
+		phone := jtMsg.Header.TerminalPhoneNo
 		str += fmt.Sprintf(" 文件传输成功 开始保存 保存数量[%d] 地方标准[%s]\n",
 			len(progress.Record), progress.ExtensionFields.ActiveSafetyType.String())
 		_ = os.MkdirAll(phone, os.ModePerm)
